@@ -1,11 +1,11 @@
 CONSTANTS
   P = 46337
-  Classes = {"LRBF", "LSEM", "HetExp", "HetCosh", "HetStep", "HetRelu"}
+  Classes = {"LRBF", "LSEM"}
   Dims = {11, 12, 21, 22}
   Dks = {1, 2}
   Das = {2, 3}
   Rs = {1, 2}
-  JointQ = FALSE
+  JointQ = TRUE
   Offs = {0, 1}
 INIT Init
 NEXT Next
